@@ -12,7 +12,15 @@ pub type Rows = f32;
 /// Returns the estimated rows for plans, or selectivity for expressions.
 pub fn analyze_rows(egraph: &EGraph, enode: &Expr) -> Rows {
     use Expr::*;
-    let x = |i: &Id| egraph[*i].data.rows;
+    // The selectivity of a condition known to be constant is exact. (Estimates of the other
+    // expressions in its class are not: with `filter c p` = `p` or `and c e` = `e` in one class
+    // an inexact estimate below 1 would shrink the class's rows a little on every re-analysis
+    // and the analysis would not reach a fixed point.)
+    let x = |i: &Id| match egraph[*i].data.constant {
+        Some(DataValue::Bool(true)) => 1.0,
+        Some(DataValue::Bool(false)) => 0.0,
+        _ => egraph[*i].data.rows,
+    };
     let get_limit_num = |id: &Id| {
         (egraph[*id].data.constant.as_ref())
             .expect("limit should be constant")
